@@ -250,6 +250,10 @@ Proof.
     destruct (tracked_getattr _ _ _ _ _ Hinv EG) as [Hsg _].
     destruct g as [[[[|c0 s0]|z0|b0|t0]|w [|x l]]|[[|c0 s0]|[|x l]]]; try discriminate; try (inversion E; subst; assumption);
       match type of E with option_map _ ?r = _ => destruct r as [r0|]; cbn [option_map] in E; inversion E; subst; assumption end.
+  - destruct (m_getattr st src) as [[[sg rn] g]|k|] eqn:EG; [|inversion H; subst; assumption|discriminate].
+    destruct (tracked_getattr _ _ _ _ _ Hinv EG) as [Hsg _].
+    match type of H with match ?r with _ => _ end = _ => destruct r as [s2|k|] eqn:E end; inversion H; subst; [|assumption].
+    eapply tracked_setattr; eassumption.
 Qed.
 
 Lemma reaches_tracked names st ops st' : reaches names st ops st' -> tracked_inv st -> tracked_inv st'.
@@ -468,6 +472,16 @@ Lemma f11_auto_accepted :
   accepted11 w11_auto 0 (XVal (RList true [bs "9050"; bs "9150 IsolateDestAddr"])) /\
   accepted11 w11_auto 2 (XVal (RList true [bs "auto"])) /\
   accepted11 w11_auto 6 (XSocks (SockTcp (bs "127.0.0.1") 9050)).
+Proof. split; [accept|split; accept]. Qed.
+
+(* a typed scalar option reset to its default (keyword-only CONF_CHANGED line): reads give the
+   config/defaults line parsed by the declared type, or the sentinel when Tor announced none *)
+Definition w11_reset := p_input p_store (Some [(bs "NumCPUs", bs "0")])
+  [OpEvent [(bs "NumCPUs", Some (bs "8"))]; OpRead (bs "NumCPUs"); OpEvent [(bs "NumCPUs", None); (bs "Nickname", None)];
+   OpRead (bs "numcpus"); OpRead (bs "Nickname")].
+Lemma f11_reset_accepted :
+  accepted11 w11_reset 1 (XVal (RAtom (AInt 8))) /\ accepted11 w11_reset 3 (XVal (RAtom (AInt 0))) /\
+  accepted11 w11_reset 4 (XVal (RAtom (AStr (bs "DEFAULT")))).
 Proof. split; [accept|split; accept]. Qed.
 
 Lemma f11_5_refuted : refutes11 w11_f5 /\ edit_while_detached w11_f5 = true.
